@@ -5,7 +5,7 @@ CHECK = dict(
     families=[('daemonfaults', 1.0)],
     extras=[enumerate_sequences],
     budget=dict(quick=20, thorough=420), max_runs=dict(quick=2_000_000, thorough=50_000_000),
-    rule=('exhaustive part: every fault sequence up to length 3 (quick) / 5 (thorough) over the alphabet '
+    rule=('the model HTTP reply carries bitcoind\'s status codes and a readchunk() whose chunk ends can arrive apart from their data; exhaustive part: every fault sequence up to length 3 (quick) / 5 (thorough) over the alphabet '
           '{timeout, disconnect, reset, connection error, client error, HTTP 500 refusal, warming-up (single and '
           'inside a batch), mid-body cut} x every call kind (height, block_hex_hashes, getrawtransactions with and '
           'without error replacement, mempool_hashes, getrawtransaction, broadcast, get_block to the simulated '
